@@ -1692,7 +1692,7 @@ def family_sequences(tier):
     if tier == 'quick':
         bounds = [(2, len(K)), (3, 8)]
     else:
-        bounds = [(2, len(K)), (3, len(K)), (4, 6)]
+        bounds = [(2, len(K)), (3, len(K)), (4, 8)]
     seen = set()
     for n, width in bounds:
         for seq in itertools.product(K[:width], repeat=n):
